@@ -57,15 +57,18 @@ pub enum L2 {
     SecondRow,
     /// every second column of a parent with 2m columns, odd columns poison
     SecondCol,
+    /// reversed-column (feature axis) view of a copy with reversed columns: rows have stride -1
+    RevCols,
 }
 
-pub const L2_ALL: [(&str, L2); 6] = [
+pub const L2_ALL: [(&str, L2); 7] = [
     ("standard", L2::Std),
     ("column_major_owned", L2::F),
     ("transposed_view_of_feature_major", L2::T),
     ("reversed_rows_view_of_reversed_copy", L2::RevRows),
     ("every_second_row_of_poisoned_parent", L2::SecondRow),
     ("every_second_column_of_poisoned_parent", L2::SecondCol),
+    ("reversed_columns_view_of_reversed_copy", L2::RevCols),
 ];
 
 pub struct Held2<T> {
@@ -82,6 +85,7 @@ pub fn hold2<T: Clone>(n: usize, m: usize, get: &dyn Fn(usize, usize) -> T, pois
         L2::RevRows => Array2::from_shape_fn((n, m), |(i, j)| get(n - 1 - i, j)),
         L2::SecondRow => Array2::from_shape_fn((2 * n, m), |(i, j)| if i % 2 == 0 { get(i / 2, j) } else { poison(i / 2, j) }),
         L2::SecondCol => Array2::from_shape_fn((n, 2 * m), |(i, j)| if j % 2 == 0 { get(i, j / 2) } else { poison(i, j / 2) }),
+        L2::RevCols => Array2::from_shape_fn((n, m), |(i, j)| get(i, m - 1 - j)),
     };
     Held2 { parent, lay }
 }
@@ -94,6 +98,7 @@ impl<T> Held2<T> {
             L2::RevRows => self.parent.slice(s![..;-1, ..]),
             L2::SecondRow => self.parent.slice(s![..;2, ..]),
             L2::SecondCol => self.parent.slice(s![.., ..;2]),
+            L2::RevCols => self.parent.slice(s![.., ..;-1]),
         }
     }
 }
